@@ -176,9 +176,13 @@ def run_delta(args, stdin=b"", env=None, timeout=20, cwd=None, binary=None, mem_
         if attempt == 1 and _CONFIRMED_TIMEOUTS[0] >= 2:
             break          # non-termination has been confirmed several times in this check: no need to wait again
         budget = timeout if attempt == 0 else max(60, timeout * 3)
+        if attempt == 0 and _CONFIRMED_TIMEOUTS[0] >= 2:
+            budget = min(timeout, 10)       # (the check has failed already: do not wait long for every further run that hangs)
         try:
             if attempt == 1:
                 _RETRY_LOCK.acquire()
+                if _CONFIRMED_TIMEOUTS[0] >= 2:
+                    break      # (confirmed meanwhile by the runs that waited in front of this one)
             # (own session: on a time-out the whole tree is removed - delta may have children of its own, a pager or a wrapped
             # command, and may itself be the child of a shell; a survivor holding the pipes must not keep this call waiting)
             p = subprocess.Popen(argv, stdin=subprocess.PIPE, env=full_env, cwd=r.cwd, stdout=subprocess.PIPE, stderr=subprocess.PIPE,
